@@ -110,7 +110,75 @@ func replayEqualsModel(s *explore.Sess) string {
 	return ""
 }
 
+// c02LongGrowth: one long history - 6000 keys inserted with a clean restart every 1500 (thorough: 20000 / 2500), a
+// few overwrites and deletes per session: index files beyond 64 KiB, many levels, splits right after a restart.
+// After every restart and at the end: all reads, Count, scan and the structural walk against the model.
+func c02LongGrowth(c *explore.Ctx) *explore.Violation {
+	total, every := 6000, 1500
+	if c.Thorough() {
+		total, every = 20000, 2500
+	}
+	mk := func(n int, msg string) *explore.Violation {
+		return &explore.Violation{Key: fmt.Sprintf("long-growth keys=%d restart-every=%d", total, every), What: fmt.Sprintf("one session per %d inserted keys, after %d keys: %s", every, n, msg), Size: n,
+			Replay: map[string]interface{}{"kind": "growth02", "total": total, "every": every, "observed": msg}}
+	}
+	explore.PinSeed(7)
+	s := &explore.Sess{FS: simfs.New(), Cfg: explore.BIGC, Model: explore.Model{}, Keys: map[string][]byte{}, Seed: 7, BaseName: "(empty)"}
+	if err := s.OpenDB(); err != nil {
+		return mk(0, "Open: "+err.Error())
+	}
+	key := func(i int) []byte { return []byte(fmt.Sprintf("growth-key-%06d", i)) }
+	for i := 0; i < total; i++ {
+		k, v := key(i), fmt.Sprintf("val-%d", i)
+		if err := s.DB.Put(k, []byte(v)); err != nil {
+			return mk(i, "Put: "+err.Error())
+		}
+		s.Model[string(k)] = v
+		if i%97 == 5 {
+			d := key(i / 2)
+			if err := s.DB.Delete(d); err != nil {
+				return mk(i, "Delete: "+err.Error())
+			}
+			delete(s.Model, string(d))
+		}
+		if i%101 == 7 {
+			o, v2 := key(i/3), fmt.Sprintf("over-%d", i)
+			if _, ok := s.Model[string(o)]; ok {
+				if err := s.DB.Put(o, []byte(v2)); err != nil {
+					return mk(i, "Put: "+err.Error())
+				}
+				s.Model[string(o)] = v2
+			}
+		}
+		c.Add("transitions", 1)
+		if (i+1)%every == 0 || i == total-1 {
+			if err := s.Apply(explore.Op{Kind: explore.Reopen}); err != nil {
+				return mk(i+1, "Reopen: "+err.Error())
+			}
+			c.Add("reopens", 1)
+			for k, v := range s.Model {
+				got, err := s.DB.Get([]byte(k))
+				if err != nil || string(got) != v {
+					return mk(i+1, fmt.Sprintf("after the restart Get(%s)=%q, err=%v; want %q", k, got, err, v))
+				}
+			}
+			if msg := s.Check(); msg != "" {
+				return mk(i+1, "after the restart: "+msg)
+			}
+		}
+	}
+	_ = s.DB.Close()
+	return nil
+}
+
 func runC02(c *explore.Ctx) {
+	if c.Mine() {
+		c.Add("executions", 1)
+		if v := c02LongGrowth(c); v != nil {
+			c.Violation(*v)
+			return
+		}
+	}
 	for _, sp := range c02Spaces(c) {
 		if c.Expired() || c.NViolations() > 0 {
 			return
@@ -231,7 +299,7 @@ func init() {
 		Prop:  "C02",
 		Level: "model_checking",
 		Rule: "every word of length <= d over the C01 alphabet + Reopen (Close must return nil, then Open) from the engineered bases, followed by a forced Reopen, one Put, Reopen and a write-free session; " +
-			"after every step: full contents/Count/structural walk vs map model, independent decoder replay (sequence order) == model; every reopening Open is checked on the FS op log to have run no recovery; distinct = distinct FS images",
+			"after every step: full contents/Count/structural walk vs map model, independent decoder replay (sequence order) == model; every reopening Open is checked on the FS op log to have run no recovery; distinct = distinct FS images; plus one long history (6000 keys, thorough 20000, a clean restart every 1500/2500 inserts with interleaved deletes and overwrites: index files far beyond 64 KiB, splits right after a restart) with the same oracles after every restart",
 		Assumptions:   []string{"sessions run on simfs; OS/OSMMap session alternation is covered by C17's differential", "depth bound as reported"},
 		QuickBudget:   100 * time.Second,
 		ThorBudget:    25 * time.Minute,
